@@ -101,6 +101,8 @@ func (f FForm) Expr() map[string]any {
 			c = map[string]any{f.Q: map[string]any{"count": f.K, "validation": inner}}
 		}
 		return map[string]any{"propertyConstraints": map[string]any{f.Path.Canon(): c}}
+	case "rego":
+		return map[string]any{"rego": f.Q}
 	case "and", "or":
 		l := []any{}
 		for _, k := range f.Kids {
